@@ -100,10 +100,31 @@ patch("sync/pool.go", [
 
 	verifMu   Mutex
 	verifList []any
+	verifReg  bool
 }
 
 // verifPools is switched on by the deterministic simulator (via linkname).
-var verifPools bool"""),
+var verifPools bool
+
+var (
+	verifAllMu Mutex
+	verifAll   []*Pool
+)
+
+// verifResetPools empties every pool of the process: pooled objects must not
+// carry state from one simulated run into the next.
+func verifResetPools() {
+	verifAllMu.Lock()
+	for _, p := range verifAll {
+		p.verifMu.Lock()
+		for i := range p.verifList {
+			p.verifList[i] = nil
+		}
+		p.verifList = p.verifList[:0]
+		p.verifMu.Unlock()
+	}
+	verifAllMu.Unlock()
+}"""),
     ("""func (p *Pool) Put(x any) {
 	if x == nil {
 		return
@@ -113,8 +134,15 @@ var verifPools bool"""),
 	}
 	if verifPools {
 		p.verifMu.Lock()
+		reg := !p.verifReg
+		p.verifReg = true
 		p.verifList = append(p.verifList, x)
 		p.verifMu.Unlock()
+		if reg {
+			verifAllMu.Lock()
+			verifAll = append(verifAll, p)
+			verifAllMu.Unlock()
+		}
 		return
 	}"""),
     ("""func (p *Pool) Get() any {""", """func (p *Pool) Get() any {
